@@ -15,7 +15,7 @@ RULE = ("cases are (kind, 32-byte key class, plaintext bytes, method) drawn from
         "malformed (short/unaligned/empty ciphertext, unknown or non-string method, wrongly shaped stored secrets "
         "through SecureField.to_python); a case is non-trivial when at least one oracle comparison was evaluated; "
         "distinct = distinct case content")
-REQUIRED = ("roundtrips_with_mutable_buffers", "stored_secrets_with_equal_plaintext_compared", "aes_oracle_decrypts", "aes_library_decrypts_oracle_output", "xor_oracle_checks", "malformed_rejected",
+REQUIRED = ("malformed_inputs_labelled_best", "roundtrips_with_mutable_buffers", "stored_secrets_with_equal_plaintext_compared", "aes_oracle_decrypts", "aes_library_decrypts_oracle_output", "xor_oracle_checks", "malformed_rejected",
             "iv_sets_checked", "wrong_key_checks", "stored_secret_shapes_rejected", "sessions_judged", "provider_objects_judged",
             "rekeyed_objects_judged", "key_file_replaced_between_contexts", "iv_checks_under_reseeded_global_random", "large_plaintexts",
             "stored_secret_reloaded_after_rekey")
@@ -373,18 +373,26 @@ def run(case, ctx, res):
         SV = cc.encryption.SecureValue
         with kf as k:
             good = k.encrypt(ptb, method="aes").ciphertext
+            # a stored value may carry the label "best" (a hand-written or converted document): it names the same cipher
+            # and the same demands
+            aes = "best" if case["r"] % 3 == 0 else "aes"
+            if aes == "best":
+                res.count("malformed_inputs_labelled_best")
+                err, val = _raises(lambda: k.decrypt(SV("best", good)))
+                if err or val != ptb:
+                    res.viol("M-roundtrip", "well-formed-value-labelled-best", "decrypt of a well-formed AES value labelled 'best' gave %r" % (val,))
             if what == "short":
-                bad = SV("aes", good[: case["r"] % 32])
+                bad = SV(aes, good[: case["r"] % 32])
             elif what == "empty":
-                bad = SV("aes", b"")
+                bad = SV(aes, b"")
             elif what == "iv_only":
-                bad = SV("aes", good[:16])
+                bad = SV(aes, good[:16])
             elif what == "unaligned":
-                bad = SV("aes", good + b"\x00" * (1 + case["r"] % 15))
+                bad = SV(aes, good + b"\x00" * (1 + case["r"] % 15))
             elif what == "trunc_block":
-                bad = SV("aes", good[:-16]) if len(good) > 32 else SV("aes", good[:16])
+                bad = SV(aes, good[:-16]) if len(good) > 32 else SV(aes, good[:16])
             elif what == "extended":
-                bad = SV("aes", good + bytes(16))
+                bad = SV(aes, good + bytes(16))
             elif what == "wrong_type":
                 # a ciphertext that is no byte string at all, for either method (an int N must not come back as N bytes of key)
                 bad = SV(["aes", "xor"][case["r"] % 2], [32, 7, "hello", [1, 2, 3], None, 1.5, ("a",)][case["r"] % 7])
